@@ -84,7 +84,7 @@ class P(Prop):
                 m = rnd.choice(METHODS); u = b"/" + self.tok(rnd, 12, b"abc/.?=&#%x-_~"); v = rnd.choice(VERS)
                 hs = []
                 for _ in range(rnd.choice([0, 1, 2, 5, 20, 50])):
-                    nm = rnd.choice([b"Host", b"X-" + self.tok(rnd, 6, b"abcXYZ-"), b"Accept", b"Content-Length", b"A=b", b"a;b", "Ünï".encode()])
+                    nm = rnd.choice([b"Host", b"X-" + self.tok(rnd, 6, b"abcXYZ-"), b"Accept", b"Content-Length", b"A=b", b"a;b", "Ünï".encode(), b"content-length", b"CONTENT-LENGTH", b"Content-length", b"X-Content-Length"])
                     if nm == b"Content-Length": val = str(rnd.choice([0, 5, 2 ** 31, 2 ** 64 - 1])).encode()
                     else: val = rnd.choice([self.tok(rnd, 10, b"abc: =;,/"), b"x: y: z", b"a=b: c", "ü: 😀".encode(), b"", b" lead", b"trail ", b"a:b", b"::"])
                     hs.append((nm, val))
